@@ -203,6 +203,7 @@ type leafChecker struct {
 	nulls  int
 	lists  int
 	frags  int // type-conditioned fragments that applied and were checked
+	skipped int // selections a directive removed from the response
 	errs   []string
 }
 
@@ -316,6 +317,13 @@ func (lc *leafChecker) object(parent string, sels []Sel, j *JV, d *DV, path stri
 	for _, s := range sels {
 		switch s.Kind {
 		case "f":
+			if removesSelection(s.Dir) {
+				// @skip(if: true) / @include(if: false): the server sends nothing for THIS selection (the key may
+				// still be present because a sibling selects the same field — with the sibling's sub-selections,
+				// which the sibling's walk checks): nothing is demanded here
+				lc.skipped++
+				continue
+			}
 			jv, ok := j.Get(s.Key())
 			if !ok {
 				lc.fail(path+"."+s.Key(), "harness: the response has no such key")
@@ -337,6 +345,10 @@ func (lc *leafChecker) object(parent string, sels []Sel, j *JV, d *DV, path stri
 			}
 			lc.value(ft, s.Sels, jv, &f.V, path+"."+s.Key())
 		case "i", "s":
+			if removesSelection(s.Dir) {
+				lc.skipped++
+				continue // the fragment's fields are not in the response (unless a sibling selects them too)
+			}
 			cond, name, body := s.Cond, s.Cond, s.Sels
 			if s.Kind == "i" && s.Cond == "" {
 				cond, name = parent, parent
@@ -383,6 +395,7 @@ func (lc *leafChecker) object(parent string, sels []Sel, j *JV, d *DV, path stri
 					lc.nulls += sub.nulls
 					lc.lists += sub.lists
 					lc.frags += sub.frags
+					lc.skipped += sub.skipped
 					break
 				}
 				if firstErrs == nil {
@@ -524,48 +537,91 @@ func (e *envChecker) out(format string, a ...any) {
 	}
 }
 
-// flatten lists the field selections that can land in the same response object.
-func (e *envChecker) flatten(sels []Sel, seen map[string]bool, out *[]Sel) {
+// flatField: a field selection together with the concrete object types of the response objects it can
+// land in (the type conditions of the fragments around it, intersected) and the type it is selected on.
+type flatField struct {
+	Sel
+	poss   []string
+	parent string
+}
+
+type scopeList struct {
+	parent string
+	sels   []Sel
+}
+
+func intersect(a, b []string) []string {
+	var out []string
+	for _, x := range a {
+		if contains(b, x) {
+			out = append(out, x)
+		}
+	}
+	return out
+}
+
+// flatten lists the field selections that can land in the same response object, each with the
+// concrete types for which it does. A fragment whose type condition excludes every remaining type
+// contributes nothing.
+func (e *envChecker) flatten(parent string, sels []Sel, poss []string, seen map[string]bool, out *[]flatField) {
 	for _, s := range sels {
 		switch s.Kind {
 		case "f":
-			*out = append(*out, s)
+			*out = append(*out, flatField{Sel: s, poss: poss, parent: parent})
 		case "i":
-			e.flatten(s.Sels, seen, out)
+			p, par := poss, parent
+			if s.Cond != "" {
+				p, par = intersect(poss, e.spec.Possible(s.Cond)), s.Cond
+			}
+			if len(p) > 0 {
+				e.flatten(par, s.Sels, p, seen, out)
+			}
 		case "s":
-			if !seen[s.Name] {
-				seen[s.Name] = true
-				if def := e.doc.Frag(s.Name); def != nil {
-					e.flatten(def.Sels, seen, out)
-				}
+			def := e.doc.Frag(s.Name)
+			if def == nil {
+				continue
+			}
+			p := intersect(poss, e.spec.Possible(def.Cond))
+			k := s.Name + "|" + strings.Join(p, ",")
+			if len(p) > 0 && !seen[k] {
+				seen[k] = true
+				e.flatten(def.Cond, def.Sels, p, seen, out)
 			}
 		}
 	}
 }
 
 // scope checks that the keys that can land in one response object are equal or distinct ignoring
-// case, recursively through the merged sub-selections.
-func (e *envChecker) scope(lists [][]Sel, depth int) {
+// case — two keys that differ only in case are harmless when the fragments they sit in apply to
+// disjoint sets of object types (they never meet in one object) —, recursively through the merged
+// sub-selections.
+func (e *envChecker) scope(lists []scopeList, depth int) {
 	if depth > 12 {
 		return
 	}
-	var fields []Sel
+	var fields []flatField
 	for _, l := range lists {
-		e.flatten(l, map[string]bool{}, &fields)
+		e.flatten(l.parent, l.sels, e.spec.Possible(l.parent), map[string]bool{}, &fields)
 	}
-	groups := map[string][]Sel{}
+	groups := map[string][]flatField{}
 	for _, f := range fields {
 		groups[strings.ToLower(f.Key())] = append(groups[strings.ToLower(f.Key())], f)
 	}
 	for _, lk := range sortedKeys(groups) {
 		g := groups[lk]
-		var subs [][]Sel
-		for _, f := range g {
-			if f.Key() != g[0].Key() {
-				e.out("response keys %q and %q can land in one object and differ only in letter case", g[0].Key(), f.Key())
+		var subs []scopeList
+		for i, f := range g {
+			for _, h := range g[:i] {
+				if f.Key() != h.Key() && overlaps(f.poss, h.poss) {
+					e.out("response keys %q and %q can land in one object and differ only in letter case", h.Key(), f.Key())
+				}
 			}
 			if len(f.Sels) > 0 {
-				subs = append(subs, f.Sels)
+				if pt := e.spec.Type(f.parent); pt != nil {
+					if fs := pt.Field(f.Name); fs != nil {
+						subs = append(subs, scopeList{parent: fs.Type.Base(), sels: f.Sels})
+					}
+				}
 			}
 		}
 		if len(subs) > 0 {
@@ -663,7 +719,7 @@ func inEnvelope(spec *SchemaSpec, doc *Doc) (ok bool, why string, ec *envChecker
 			continue
 		}
 		e.set(root, def.Sels)
-		e.scope([][]Sel{def.Sels}, 0)
+		e.scope([]scopeList{{parent: root, sels: def.Sels}}, 0)
 	}
 	return e.why == "", e.why, e
 }
